@@ -29,23 +29,25 @@ TRUSTED_BASE = [
 ASSUMPTIONS = [
     "callers obey the documented contracts: configuration fields (Writer.*, Transport.*, ReaderConfig) are not modified after first use; a reader/writer obtained from a compression codec, a protocol page buffer and a Message are used by one goroutine at a time",
     "a lock is released by the goroutine that acquired it; a callee does not retain a pointer &x.f passed to it beyond the call; deferred functions run after a normal return (panics are not modelled as control flow)",
-    "Reader consumer-group mode is not exercised by the race programs (needs a scripted coordinator); Reader.unsubscribe's unlocked use of r.cancel is reported from the static analysis only",
+    "Reader consumer-group mode is exercised only by the readergroup scenario (one member, forced rebalances on the in-memory group broker harness/groupfake)",
 ]
 
-# known exception sites (Policy.known_exceptions) -> finding key, Go symbol seen in race reports
-KEYS = {
-    ("Batch", "err", "Batch.Err"): "F7-batch-err-unlocked-read",
-    ("Conn", "offset", "Batch.ReadMessage"): "F7-conn-offset-unlocked-read",
-    ("Reader", "version", "Reader.start$1"): "F7-reader-version-unlocked-read",
-    ("Reader", "cancel", "Reader.unsubscribe"): "F7-reader-cancel-unlocked-read",
-}
-WHAT = {
-    "F7-batch-err-unlocked-read": "Batch.Err reads batch.err without batch.mutex while Read/ReadMessage write it under the mutex (Batch is documented as safe for concurrent use)",
-    "F7-conn-offset-unlocked-read": "Batch.ReadMessage reads conn.offset holding only batch.mutex while Conn.Seek writes it under conn.mutex",
-    "F7-reader-version-unlocked-read": "the goroutine spawned by Reader.start reads r.version (and builds the partition reader from it) without r.mutex while the next Reader.start (SetOffset) increments it under the mutex",
-    "F7-reader-cancel-unlocked-read": "Reader.unsubscribe calls r.cancel without r.mutex while Reader.start replaces r.cancel under the mutex",
-}
-FOCUS_SCENARIO = {"Batch.err": "batcherr", "Conn.offset": "connoffset", "Reader.version": "readerversion"}
+# A site listed in Policy.known_exceptions is reported as a failure under this key (to be
+# matched by a status "known" entry of known_findings.json).  The list is empty at present:
+# the four F7 races found by this check (Batch.Err/batch.err, Batch.ReadMessage/conn.offset,
+# Reader.start's goroutine/r.version, Reader.unsubscribe/r.cancel) were fixed in /repo; their
+# programs stay in harness/cmd/c10 as regression scenarios that must run clean under -race.
+def site_key(site):
+    return "C10-" + "-".join(site).replace("$", "-lit")
+
+
+def site_what(site):
+    return f"{site[0]}.{site[1]} is accessed in {site[2]} outside the protection its policy entry demands (recorded exception)"
+
+
+REGRESSION_SCENARIOS = ["batcherr", "connoffset", "readerversion", "readergroup"]
+FOCUS_SCENARIO = {"Batch.err": "batcherr", "Conn.offset": "connoffset", "Reader.version": "readerversion",
+                  "Reader.cancel": "readergroup"}
 
 
 def go_symbol(func):
@@ -108,14 +110,21 @@ def offenders(exempted):
     out, err = coq_query(
         f"Eval vm_compute in (map (fun f => (a_type f, a_field f, a_kind f, a_func f, a_pos f)) (offenders {facts} kafka)).\n"
         "Eval vm_compute in (filter (fun tf => match lookup kafka (fst tf) (snd tf) with Some _ => false | None => true end) fields).\n"
-        "Eval vm_compute in (filter (fun u => negb (existsb (unk_eqb u) reviewed_unknowns)) unknowns).\n")
+        "Eval vm_compute in (filter (fun u => negb (existsb (unk_eqb u) reviewed_unknowns)) unknowns).\n"
+        "Eval vm_compute in (filter (fun u => negb (existsb (unk_eqb u) unknowns)) reviewed_unknowns).\n")
     if out is None:
         return None, None, None, err
     blocks = re.split(r"\n\s*:\s*list[^\n]*\n", out)
     sites = re.findall(r'\("([^"]*)",\s*"([^"]*)",\s*(K\w+),\s*"([^"]*)",\s*"([^"]*)"\)', blocks[0])
     nopol = re.findall(r'\("([^"]*)",\s*"([^"]*)"\)', blocks[1]) if len(blocks) > 1 else []
-    unk = re.findall(r'u_func := "([^"]*)";\s*u_what := "([^"]*)";\s*u_text := "([^"]*)"', blocks[2]) if len(blocks) > 2 else []
+    unk_re = r'u_func := "([^"]*)";\s*u_what := "([^"]*)";\s*u_text := "([^"]*)"'
+    unk = re.findall(unk_re, blocks[2]) if len(blocks) > 2 else []
+    global STALE_UNKNOWNS
+    STALE_UNKNOWNS = re.findall(unk_re, blocks[3]) if len(blocks) > 3 else []
     return sites, nopol, unk, ""
+
+
+STALE_UNKNOWNS = []
 
 
 def policy_summary():
@@ -249,7 +258,7 @@ def correspondence(ctx):
 
     # --- which exempted sites still violate the policy on the current tree
     sites, nopol, unk, qerr = offenders(exempted=False)
-    still = []
+    still, stale_n = [], 0
     if sites is None:
         notes.append("could not evaluate the offenders query: " + qerr[-300:])
     else:
@@ -260,10 +269,13 @@ def correspondence(ctx):
             if s in by_site:
                 still.append(s)
             else:
-                notes.append(f"known exception {s} no longer violates the policy on this tree (fixed?): remove it from Policy.known_exceptions")
+                notes.append(f"STALE Policy.known_exceptions entry {s}: no access fact violates the policy there any more (fixed?): remove it")
         for s in rev_sites:
             if s not in by_site:
-                notes.append(f"reviewed site {s} no longer violates the policy: the entry in Policy.reviewed_sites is stale")
+                notes.append(f"STALE Policy.reviewed_sites entry {s}: no access fact violates the policy there any more: remove it")
+        for u in STALE_UNKNOWNS:
+            notes.append(f"STALE Policy.reviewed_unknowns entry {u}: the translator no longer reports this construct: remove it")
+        stale_n = sum(1 for n in notes if n.startswith("STALE"))
 
     # --- race-detector runs
     L.go_build("c10", race=True)
@@ -302,7 +314,7 @@ def correspondence(ctx):
             notes.append("race report outside /repo (harness fake?): " + rep["text"][:400])
 
     for s in still:
-        key = KEYS.get(s, "C10-exception-" + "-".join(s))
+        key = site_key(s)
         rep = confirmed.get(s)
         detail = f"static: {s[0]}.{s[1]} accessed in {s[2]} outside its policy ({'; '.join(by_site[s])})"
         inp = None
@@ -311,7 +323,7 @@ def correspondence(ctx):
             inp = dict(scenario=rep["scenario"], seed=rep["seed"], dur=rep["dur"], focus=rep["focus"], key=key, report=rep["text"])
         else:
             detail += "\nno race-detector report obtained (not reachable by the implemented race programs)"
-        failures.append(dict(layer="property", key=key, what=WHAT.get(key, key), detail=detail, input=inp))
+        failures.append(dict(layer="property", key=key, what=site_what(s), detail=detail, input=inp))
     for rep in unattributed[:5]:
         failures.append(dict(layer="property", key=None,
                              what="race detector report in /repo not explained by any known exception: the static discipline passes there, so the static model (or the policy) is unsound at this site",
@@ -324,8 +336,13 @@ def correspondence(ctx):
     hist.update({f"{k}:ops": v["ops"] for k, v in summaries.items()})
     hist["distinct_race_reports"] = len(distinct)
     trusted = sum(kinds.get(k, 0) for k in ("HandedOff", "Confined", "SelfSynchronised", "LockTransferred"))
-    samples = [f"{s[0]}.{s[1]} in {s[2]} -> {KEYS.get(s)}: " + ("race confirmed by scenario " + confirmed[s]["scenario"] if s in confirmed else "static only") for s in still]
-    samples += [f"{k}: {v['programs']} programs, {v['ops']} ops" for k, v in list(summaries.items())[:5]]
+    samples = [f"{s[0]}.{s[1]} in {s[2]} -> {site_key(s)}: " + ("race confirmed by scenario " + confirmed[s]["scenario"] if s in confirmed else "static only") for s in still]
+    samples += [f"{k}: {v['programs']} programs, {v['ops']} ops, 0 race reports" if not any(r["scenario"] == k for r in distinct.values())
+                else f"{k}: {v['programs']} programs, {v['ops']} ops, RACE REPORTS" for k, v in summaries.items()
+                if k in REGRESSION_SCENARIOS or k in ("balancers", "writer", "reader", "transport")][:8]
+    for sc in REGRESSION_SCENARIOS:
+        if sc not in summaries and summaries:
+            failures.append(dict(layer="correspondence", what=f"regression scenario {sc} is missing from harness/cmd/c10", detail="", input=None))
     return dict(
         evaluations=programs, distinct_nontrivial=programs, hist=hist,
         rule="static: every access fact extracted from /repo checked against the policy (Coq, vm_compute); dynamic: concurrent client programs "
@@ -337,7 +354,8 @@ def correspondence(ctx):
                    policy_kinds=kinds, policy_trusted_entries=trusted, known_exceptions=[list(s) for s in exc_sites],
                    reviewed_sites=[list(s) for s in rev_sites], race_programs=programs, race_scenarios=list(summaries.keys()),
                    race_methods_covered=methods, race_reports_distinct=len(distinct),
-                   race_confirmed_keys=sorted(KEYS.get(s, str(s)) for s in confirmed),
+                   race_confirmed_keys=sorted(site_key(s) for s in confirmed), stale_policy_entries=stale_n,
+                   regression_scenarios=REGRESSION_SCENARIOS,
                    f3_hangs_skipped=sum(v["f3_hangs"] for v in summaries.values())))
 
 
@@ -401,7 +419,7 @@ def replay(ctx, payload):
         _, exc_sites, _ = policy_summary()
         for rep in reports:
             site = attribute(rep, exc_sites)
-            if (want and site and KEYS.get(site) == want) or (not want and in_repo(rep)):
+            if (want and site and site_key(site) == want) or (not want and in_repo(rep)):
                 print(f"replay: race reproduced (attempt {attempt + 1}) with: c10_race {rep['cmd']}\n" + rep["text"][:2500])
                 return 1
     print("replay: the race detector did not report it again in 3 runs")
